@@ -292,7 +292,8 @@ template <class VecT> VecT SemanticModel::fieldsFor_CORE(
                 PSY_ASSERT_1(!P->bindingIsOK_);
                 continue;
             }
-            PSY_ASSERT_2(decl->kind() == SymbolKind::FieldDeclaration, continue);
+            if (decl->kind() != SymbolKind::FieldDeclaration)
+                continue;
             decls.push_back(decl->asFieldDeclaration());
         }
     }
